@@ -204,12 +204,49 @@ func runNodeHistory(tp *sim.Tape, tier, prop string, o *runOut) {
 		nLog := len(nd.Log.Lines)
 		nSent := len(nd.Board.Sent)
 		nOps := len(pending(nd))
+		saved := m.Clone()
 		r := m.Step(e)
 		if m.KeyVar >= 0 {
 			f.UseKeyVariant(m.KeyVar)
 		}
 		if e.Kind == EvStart && r.Exp == ExpAccept {
 			f.AcceptStart()
+		}
+		// fault: the board is unreachable at the very moment the node has to publish
+		// what it reconstructed from the t-th contribution, and another participant's
+		// contribution is still to come. The node may fail on this message, but it must
+		// keep nothing of it: seen from the round the message was never processed (the
+		// model is rolled back), and the next contribution completes the batch.
+		if prop == "C06" && e.Kind == EvPartial && r.Exp == ExpAccept && r.Collected && popcount(m.Conf|m.Failed) < n && !desync && tp.Bool(1, 4, "boardDown") {
+			*m = *saved
+			nd.Board.FailNext = true
+			perr := nd.Svc.ProcessMessage(msg)
+			fired := !nd.Board.FailNext
+			nd.Board.FailNext = false
+			o.steps++
+			st := nd.RoundState(f.Round)
+			o.log.Add("%s [board unreachable at publication] -> %s err=%v", e, st, perr != nil)
+			hist[len(hist)-1] += "[board-down]"
+			if fired {
+				o.stats.Fault("board-unreachable-at-publication")
+				if _, known := AbstractPhase(st); !known {
+					fail(o, prop, "transient-state-persisted/"+st, fmt.Sprintf("the board was unreachable when the node had to publish the signatures reconstructed from %s; it persisted the hand-over state %s, which nothing leads out of; history: %s", e, st, strings.Join(hist, " ")))
+					break
+				}
+				if perr == nil {
+					fail(o, prop, "publication-failure-swallowed", fmt.Sprintf("the board refused the reconstructed signatures of %s but the message was reported as processed; history: %s", e, strings.Join(hist, " ")))
+					break
+				}
+				if after := nd.RoundDump(f.Round); normDump(before) != normDump(after) {
+					fail(o, prop, "failed-publication-left-traces", fmt.Sprintf("processing %s failed at the publication step but the persisted round changed (state now %s); history: %s", e, st, strings.Join(hist, " ")))
+					break
+				}
+				continue
+			}
+			// the node did not try to publish: judge the step as usual
+			hist[len(hist)-1] = e.String()
+			fail(o, prop, "reconstruction-false-expected-true", fmt.Sprintf("after %s: t=%d distinct contributions, but the node did not publish a reconstruction; history: %s", e, t, strings.Join(hist, " ")))
+			break
 		}
 		perr := nd.Svc.ProcessMessage(msg)
 		o.steps++
